@@ -18,7 +18,7 @@ LEVEL = "exploration"
 RULE = (
     "(i) EXHAUSTIVE histories over the 9-letter alphabet {fun, grad, fun_and_grad} x {P0, P1, P2} of length <= L for each gradient mode (quick: L=4 for callable/2-point/3-point/cs; thorough: L=6 callable "
     "and 2-point, L=5 3-point and cs), the wrapper built by prepare_scalar_function; (ii) RuleBasedStateMachine histories of up to 30 requests with extra operations: set the scaling factor, "
-    "mutate the previously passed array in place and pass it again, pass a new array with the same values, points containing -0.0/0.0. Oracle: every answer equals a fresh evaluation by the harness "
+    "mutate the previously passed array in place and pass it again, pass a new array with the same values, overwrite the gradient array that was returned (also in the exhaustive part, as a second variant of every history), points containing -0.0/0.0. Oracle: every answer equals a fresh evaluation by the harness "
     "times the scaling factor current at the time of the answer; counters equal the call log; no objective call at the point of the immediately preceding request when that already produced f. "
     "non-trivial = the history revisits a point after visiting another, or mutates a passed array, or changes the scaling factor between two requests at the same point; distinct = distinct history"
 )
@@ -142,6 +142,7 @@ class Wrapper:
         if not same_pt:
             self.seen.append(pv)
         self.prev = (pv, had_f, had_g)
+        return out_f, out_g
 
 
 def run_history(item, stats=None):
@@ -149,12 +150,16 @@ def run_history(item, stats=None):
     w = Wrapper(None if mode == "None" else mode, item.get("eps", 1e-8), item.get("rel"))
     try:
         for k, (op, pi) in enumerate(hist):
-            w.request(OPS[op], POINTS[pi].copy(), tag=f"[{mode}] step {k}: ")
+            _, og = w.request(OPS[op], POINTS[pi].copy(), tag=f"[{mode}] step {k}: ")
+            if item.get("mutate_returned") and isinstance(og, np.ndarray) and og.flags.writeable:
+                # the caller owns what it was handed: scribbling over it must not reach the wrapper's cache
+                og *= -3.0
+                og += 1.0
     except Violation as v:
         v.spec = item
         raise
     if stats is not None:
-        stats.case(item, w.revisit, [f"mode={mode}", f"len={len(hist)}"],
+        stats.case(item, w.revisit or bool(item.get("mutate_returned")), [f"mode={mode}", f"len={len(hist)}", f"mutate_returned={bool(item.get('mutate_returned'))}"],
                    sample={"mode": mode, "history": [f"{OPS[o]}(P{p})" for o, p in hist]} if len(hist) >= 3 else None)
 
 
@@ -164,12 +169,15 @@ def enum_items(modes_len):
         for ln in range(1, L + 1):
             for hist in itertools.product(letters, repeat=ln):
                 yield {"mode": mode, "hist": [list(h) for h in hist]}
+                if ln <= L - 1 and any(o != 0 for o, _ in hist):
+                    yield {"mode": mode, "hist": [list(h) for h in hist], "mutate_returned": True}
 
 
 # ---------------------------------------------------------------- stateful part
 def apply_ops(spec, stats=None):
     w = Wrapper(None if spec["mode"] == "None" else spec["mode"], spec.get("eps", 1e-8), spec.get("rel"))
     last_arr = None
+    last_out = None
     mutated = False
     for k, op in enumerate(spec["ops"]):
         kind = op["kind"]
@@ -177,14 +185,18 @@ def apply_ops(spec, stats=None):
             w.set_scale(op["s"])
         elif kind == "req":
             last_arr = np.array(op["p"], dtype=float)
-            w.request(op["op"], last_arr, tag=f"[{spec['mode']}] step {k}: ")
+            last_out = w.request(op["op"], last_arr, tag=f"[{spec['mode']}] step {k}: ")
         elif kind == "mutate" and last_arr is not None:
             last_arr[op["i"] % last_arr.size] += op["d"]
             mutated = True
-            w.request(op["op"], last_arr, tag=f"[{spec['mode']}] step {k} (same array mutated in place): ")
+            last_out = w.request(op["op"], last_arr, tag=f"[{spec['mode']}] step {k} (same array mutated in place): ")
         elif kind == "same-values" and last_arr is not None:
             last_arr = np.array(last_arr, copy=True)
-            w.request(op["op"], last_arr, tag=f"[{spec['mode']}] step {k} (new array, same values): ")
+            last_out = w.request(op["op"], last_arr, tag=f"[{spec['mode']}] step {k} (new array, same values): ")
+        elif kind == "mutate-returned" and last_out is not None and isinstance(last_out[1], np.ndarray):
+            if last_out[1].flags.writeable:
+                last_out[1][...] = last_out[1] * op["a"] + op["b"]
+                mutated = True
     return w, mutated
 
 
@@ -227,6 +239,10 @@ def make_machine(state, stats):
         @rule(op=st.sampled_from(OPS))
         def request_same_values_new_array(self, op):
             self._do({"kind": "same-values", "op": op})
+
+        @rule(a=st.sampled_from([2.0, -1.0, 0.0]), b=st.sampled_from([0.0, 1.0]))
+        def mutate_returned_gradient_in_place(self, a, b):
+            self._do({"kind": "mutate-returned", "a": a, "b": b})
 
         def teardown(self):
             if self.spec is not None and self.spec["ops"] and not self.dead and getattr(self, "res", None) is not None:
